@@ -30,7 +30,11 @@ func getSwapOutSenderStates() States {
 		Default: State{
 			Events: Events{
 				Event_OnSwapOutStarted: State_SwapOutSender_CreateSwap,
+				Event_ActionFailed:     State_SwapCanceled,
 			},
+			// A swap found in its initial state after a restart was
+			// stored but never started: nothing has been sent yet.
+			FailOnrecover: true,
 		},
 		State_SwapOutSender_CreateSwap: {
 			Action: &CreateSwapRequestAction{},
